@@ -127,13 +127,15 @@ def explore(ctx):
         names = [g["name"] for g in desc["glyphs"]]
         if args == "skip":
             args = ([n for n in names if rng.random() < 0.4] or names[:1],)
-        inc_kind = ["all", "include", "all", "exclude", "predicate", "all", "include"][(i // len(flist)) % 7]
+        inc_kind = ["all", "include", "empty-include", "exclude", "predicate", "all", "include"][(i // len(flist)) % 7]
         kw = dict(kwargs)
         if "Origin" in kw and kw["Origin"] is None:
             kw["Origin"] = rng.randint(0, 4)
         included = set(names)
         sub = [n for n in names if rng.random() < 0.5]
-        if inc_kind == "include":
+        if inc_kind == "empty-include":
+            kw["include"] = rng.choice([[], (), set()]); included = set()      # an empty list includes nothing
+        elif inc_kind == "include":
             kw["include"] = list(sub); included = set(sub)
         elif inc_kind == "exclude":
             kw["exclude"] = list(sub); included = set(names) - set(sub)
